@@ -23,6 +23,7 @@ def run(ctx, L, tier):
     P.codec_dispatch(ctx, L)
     python_generator_mapping(ctx, L)
     scalar_pack(ctx, L)
+    P.presence_by_identity(ctx, L)      # what encode emits is what the getters hand out: a stored 0 must stay 0
     return sorted(set(o.rule for o in L.obligations))
 
 
